@@ -453,7 +453,11 @@ def run(ctx):
                 # (1 holds, 2 fails, 0 no claim), must agree with this oracle
                 fl = flags.get((j, k))
                 flag_hist[fl] = flag_hist.get(fl, 0) + 1
-                if fl != (2 if probs else 1):
+                if detail == "typedecl-eq" or str(detail).endswith("-of"):
+                    # type positions behind `=` and `of` (repaired by /repo f933470): the formal statement's position classes
+                    # stop at `:`; here only this oracle (and C16_type_decl_position / C16_type_position_valid) speaks
+                    flag_hist["type-position-beyond-the-formal-classes"] = flag_hist.get("type-position-beyond-the-formal-classes", 0) + 1
+                elif fl != (2 if probs else 1):
                     spec_disagree.append((j, k, fl, probs))
             else:
                 hist["random"] = hist.get("random", 0) + 1
